@@ -26,6 +26,7 @@ TNext == /\ l <= Len(Trace)
               [] Ev.e = "toggle" -> Toggle(Ev.m, Ev.on)
               [] Ev.e = "begin"  -> Begin(Ev.m, Ev.cb)
               [] Ev.e = "end"    -> End(Ev.m, Ev.cb, Ev.ok, Ev.how = "panic")
+              [] Ev.e = "expired" -> Expire(Ev.m, Ev.cb)
               [] Ev.e = "note"   -> UNCHANGED avars
               [] OTHER           -> FALSE
 Spec == TInit /\ [][TNext]_tvars
